@@ -102,7 +102,8 @@ pub fn replay_fun(property: &str, scenario: &str, input: &serde_json::Value) -> 
         "C18" => c18::replay_fun(input),
         "C20" if scenario == "fun:c16-lattice" => chat::replay_fun("C16", scenario, input),
         "C20" => c20::replay_fun(scenario, input),
-        "C07" | "C08" | "C09" | "C16" => chat::replay_fun(property, scenario, input),
+        "C01" | "C07" | "C08" | "C09" | "C16" => chat::replay_fun(property, scenario, input),
+        "C17" => c17::replay_fun(scenario, input),
         _ => vec![],
     }
 }
